@@ -155,6 +155,32 @@ func compareAll(dst *fix.ShardFix, src *model.Store, want func(s, f string) []mo
 	return msg, onlyDeletedExtras
 }
 
+// exportInRangeMismatch is the part of the export clause that stays asserted while the finding
+// export-not-exact-range is open: restricted to [lo,hi] the imported shard equals the model, and
+// whatever it holds outside the range was written at that time with that value at some point.
+func exportInRangeMismatch(dst *fix.ShardFix, src *model.Store, lo, hi int64) string {
+	for _, s := range gen.SeriesKeys {
+		for _, f := range gen.Fields {
+			got, err := dst.Read(s, f.Name, models.MinNanoTime, models.MaxNanoTime, true)
+			if err != nil {
+				return fmt.Sprintf("read %s %s: %v", s, f.Name, err)
+			}
+			var in []model.Point
+			for _, p := range got {
+				if p.T >= lo && p.T <= hi {
+					in = append(in, p)
+				} else if !src.WasWritten(s, f.Name, p.T, p.V) {
+					return fmt.Sprintf("%s %s: point %d outside the range was never written with that value; got %s", s, f.Name, p.T, model.Render(got))
+				}
+			}
+			if w := src.Range(s, f.Name, lo, hi, true); !model.EqualPoints(in, w) {
+				return fmt.Sprintf("%s %s inside the range\n got:  %s\n want: %s", s, f.Name, model.Render(in), model.Render(w))
+			}
+		}
+	}
+	return ""
+}
+
 func TestPropBackupRestoreExport(t *testing.T) {
 	rec.Assume("the source history keeps at most 9 snapshots per shard, so that the separately tracked KeyCursor ordering defect (>12 blocks per key) cannot interfere")
 	rec.Assume("incremental backups: `since` is taken 60 ms after the previous operation and 60 ms before the next one (file modification times decide membership)")
@@ -285,8 +311,15 @@ func TestPropBackupRestoreExport(t *testing.T) {
 		wantRange := func(s, f string) []model.Point { return mc.M.Range(s, f, lo, hi, true) }
 		if msg, _ := compareAll(dst2, mc.M, wantRange, false); msg != "" {
 			if ev.KnownOpen("C38", exportGranKey) {
+				// the listed finding is about whole blocks being kept: points OUTSIDE [lo,hi] that
+				// were written at some time may come along; inside the range the import must still
+				// hold exactly the model's points
+				if bad := exportInRangeMismatch(dst2, mc.M, lo, hi); bad != "" {
+					dst2.Close()
+					fail("export-in-range-differs", fmt.Sprintf("export of [%d,%d] imported into an empty shard: %s", lo, hi, bad))
+				}
 				rec.ExcludedKnown(exportGranKey)
-				rec.Class("export:not-exact(known)")
+				rec.Class("export:not-exact-outside-range-only(known)")
 			} else {
 				dst2.Close()
 				fail("export-differs", fmt.Sprintf("export of [%d,%d] imported into an empty shard differs from the model's points in that range: %s", lo, hi, msg))
